@@ -109,7 +109,10 @@ def set_winner_coefficients(sn, spec, winners: Dict[str, int], aseed: int):
             w = winners[nid]
             top = int(torch.argmax(v))
             v[[w, top]] = v[[top, w]]
-            comb.alpha.copy_(v)
+            if aseed % 2:
+                comb.alpha.data.copy_(v)      # the other common way of writing a parameter
+            else:
+                comb.alpha.copy_(v)
 
 
 # ----------------------------------------------------------------------------------------
